@@ -283,7 +283,8 @@ impl TxnSession {
 
 //@@ fn file=fe2o3-amqp/src/transaction/session.rs impl=`~endpoint::SessionforTxnSession<S>` name=on_incoming_transfer
 //@@ ret Result<Option<Disposition>, SessionInnerError>
-//@@ subst `self.txn_manager .txns .get_mut(txn_id) .map(|txn| (txn, txn_id.clone())) .ok_or(S::Error::UnknownTxnId)?` => `match self.txn_manager.txns.get_mut(txn_id) { Some(txn) => (txn, txn_id.clone()), None => return Err(SessionInnerError::UnknownTxnId) }` rule=R19
+//@@ subst `self.txn_manager .txns .get_mut(txn_id) .map(|txn| (txn, txn_id.clone())) .ok_or(S::Error::UnknownTxnId)?` => `match self.txn_manager.txns.get_mut(txn_id) { Some(txn) => (txn, txn_id.clone()), None => return Err(SessionInnerError::UnknownTxnId) }` rule=optional-R19
+//@@ subst `S::Error::UnknownTxnId` => `SessionInnerError::UnknownTxnId` rule=optional-R2
 //@@ spec
     ensures
         transfer.state is Some && transfer.state->Some_0 is TransactionalState ==> ({
